@@ -255,6 +255,37 @@ def run_plan(r, w, plan, tags):
         cur.state_fluents.update(nxt.state_fluents)
         cur.is_init = False
         ref_cur = want
+    # (f) the plan chained with ONE Operator object per distinct call (an executor that grounds every call once): every
+    # step's successor is right, and every earlier state of the trajectory still reads as it did when it was returned
+    if len(plan) >= 2 and len({tuple(s) for s in plan}) < len(plan):
+        ops = {}
+        cur = create_initial_state(parse_problem(md.ALL[w.name][1], w.D))
+        ref_cur = w.init
+        held = [(cur, ref_cur)]
+        for i, s in enumerate(plan):
+            ok, want = expected_next(w, s, ref_cur, False)
+            if ok is None:
+                break
+            op = ops.setdefault(tuple(s), operator(w.D, s[0], s[1:], w.P.objects))
+            got = guard(lambda: op.apply(cur))
+            r.count("transitions")
+            if not ok:
+                continue
+            obs = guard(observe_state, got) if not isinstance(got, Raised) else got
+            if isinstance(obs, Raised) or not same_state(obs, want):
+                r.fail("direct-successor", f"plan {plan} step {i}: apply of the operator object kept for {line(s)} from "
+                       f"{ref_cur.to_json()} gave {show(obs)}, expected {want.to_json()}", want.to_json(), show(obs),
+                       tags=tags + ["kept-operators"])
+                return False
+            cur, ref_cur = got, want
+            held.append((cur, ref_cur))
+            for j, (st, ref) in enumerate(held):
+                now = guard(observe_state, st)
+                if isinstance(now, Raised) or not same_state(now, ref):
+                    r.fail("chaining", f"plan {plan} chained with one operator object per distinct call: after step {i} the state "
+                           f"#{j} of the trajectory reads {show(now)}, it was {ref.to_json()} when it was returned", ref.to_json(),
+                           show(now), tags=tags + ["kept-operators"])
+                    return False
     return True
 
 
